@@ -1,14 +1,14 @@
 #!/bin/bash
 # usage: tools/runall.sh [tier] [seeds...]  : run every registered check once per seed, summarise exit codes
-cd /verif
+cd "$(dirname "$0")/.."
 TIER=${1:-quick}; shift
 SEEDS=${@:-1}
 IDS=$(python3 -c "import json; print(' '.join(c['property_id'] for c in json.load(open('MANIFEST.json'))['checks']))")
 for s in $SEEDS; do
   for id in $IDS; do
     t0=$(date +%s)
-    VERIF_SEED=$s VERIF_TIER=$TIER timeout 7200 ./check $id --tier $TIER > /tmp/runall_${id}_$s.log 2>&1
+    VERIF_SEED=$s VERIF_TIER=$TIER timeout 7200 ./check $id --tier $TIER > ${RUNALL_OUT:-/tmp}/runall_${id}_$s.log 2>&1
     rc=$?
-    echo "$id seed=$s tier=$TIER rc=$rc $(( $(date +%s) - t0 ))s  $(grep -c KNOWN-FINDING /tmp/runall_${id}_$s.log) known  $(grep -E 'VIOLATION|INFRA' /tmp/runall_${id}_$s.log | head -1 | cut -c1-160)"
+    echo "$id seed=$s tier=$TIER rc=$rc $(( $(date +%s) - t0 ))s  $(grep -c KNOWN-FINDING ${RUNALL_OUT:-/tmp}/runall_${id}_$s.log) known  $(grep -E 'VIOLATION|INFRA' ${RUNALL_OUT:-/tmp}/runall_${id}_$s.log | head -1 | cut -c1-160)"
   done
 done
